@@ -153,3 +153,5 @@ func c03Race(n int) {
 func HarnessC03Race2() { c03Race(2) }
 func HarnessC03Race3() { c03Race(3) }
 func HarnessC03Race4() { c03Race(4) }
+
+func HarnessC03Race5() { c03Race(5) }
